@@ -42,6 +42,10 @@ def values_for(kind, n, draw):
         pool = [{"$e": x} for x in "ZABCDEF"]
     elif kind == "intenum":
         pool = [{"$ie": x} for x in "ZABCDEF"]
+    elif kind == "enum-instance":
+        return [{"$en": [n, f"s{i}"]} for i in range(n)]
+    elif kind == "intenum-instance":
+        return [{"$ien": [n, f"s{i}"]} for i in range(n)]
     elif kind == "tuple":
         pool = [{"$t": []}, {"$t": [0]}, {"$t": [1, 2]}, {"$t": ["a"]}, {"$t": [None]}, {"$t": [[]]}][:5] + [{"$t": [3]}, {"$t": [0, 0]}]
     else:
@@ -127,7 +131,7 @@ def cases(draw, tier):
                                  async_mode=draw(st.sampled_from(["none", "none", "none", "all"])), sends=draw(st.sampled_from([False, False, True])),
                                  guard_kinds=("method",), attach=("conv", "name")))
     n = len(spec["states"])
-    kind = draw(st.sampled_from(["ids", "str", "int", "enum", "intenum", "tuple", "mixed", "mixed"]))
+    kind = draw(st.sampled_from(["ids", "str", "int", "enum", "intenum", "tuple", "mixed", "mixed", "enum-instance", "intenum-instance"]))
     vals = values_for(kind, n, draw)
     if vals is not None:
         for s, v in zip(spec["states"], vals):
@@ -136,11 +140,16 @@ def cases(draw, tier):
         # display names are free text: several states may share one (identity of a state is its id / value, not its name)
         for s_ in spec["states"]:
             s_["name"] = draw(st.sampled_from(["Same", "Same", "Other", "S0", "s1"]))
-    if draw(st.integers(0, 2)) == 0:
+    no_enum_style = kind not in ("enum-instance", "intenum-instance") or any(c["scope"][0] == "state" and c["attach"] != "conv" for c in spec["cbs"]) or any("name" in s_ for s_ in spec["states"])
+    if draw(st.integers(0, 2)) == 0 or not no_enum_style:
         # other documented ways to declare the same machine, incl. a subclass that adds one state to a concrete parent class
         from .c15 import plan
 
-        spec["style"] = draw(plan(spec, [], True, extend=True))
+        spec["style"] = draw(plan(spec, [], no_enum_style, extend=True))
+        if not no_enum_style and draw(st.integers(0, 3)) > 0:
+            # the state values are the members of an existing enum: States.from_enum(E, ..., use_enum_instance=True)
+            spec["style"]["states"] = "enum"
+            spec["style"].pop("extend", None)
     is_async = gen.is_async_spec(spec)
     cfg = {"rtc": True if is_async else draw(st.sampled_from([True, True, False])), "allow": draw(st.booleans()),
            "driver": draw(st.sampled_from(["sync", "sync", "loop"])), "activate": True,
